@@ -42,7 +42,7 @@ Print Assumptions C16_search_terminates.
       norm(t_prev) >= target >= norm(t_final), the search keeps such a
       bracket, and a returned (t, state) is either
         - the state at t itself with |target - norm2(t)| < norm_tol*target, or
-        - t = t_final' of a bracket of width < norm_t_tol that still has
+        - t = t_final' of a bracket with t_final' <= t_prev' + norm_t_tol that still has
           norm2(t_prev') >= target >= norm2(t_final'), the state being the one
           at t_prev' or at t_final'.
       (held t v t0 v0: v is the squared norm the code holds for time t -
@@ -72,109 +72,50 @@ Proof.
 Qed.
 
 (* ---------------------------------------------------------------------
-   3. norm_steps.  Full statement (what the option documents - "an error is
-      raised if the collapse could not be found within norm_steps tries"):
-        find_collapse returns Some <-> the loop broke within norm_steps tries.
-      It is false for the current code: a search that succeeds on its last
-      allowed try raises.  Proved instead: the exact characterisation of the
-      current code (_partial), the refutation, and the full statement for
-      the repaired version (while ... else: raise). *)
-Theorem C16_find_collapse_succeeds_before_last_try_partial :
+   3. norm_steps: "an error is raised if the collapse could not be found
+      within norm_steps tries".  find_collapse returns a collapse time iff some
+      try among the norm_steps allowed ones ended the loop by `break`, and
+      raises iff all norm_steps tries went by without. *)
+Theorem C16_find_collapse_succeeds_within_norm_steps :
   forall (N : Num) (o : opts N) nrm2 lg stp sg cur tp tf no n tg g s,
     fst (find_collapse N o nrm2 lg stp sg cur tp tf no n tg) = Some (g, s) <->
     exists tr rq, fct_loop N o nrm2 lg stp (norm_steps N o) 0 sg [] cur tp tf no n tg
-                  = Broke N g s tr rq /\ tr < norm_steps N o.
+                  = Broke N g s tr rq /\ 1 <= tr <= norm_steps N o.
 Proof. exact find_collapse_some. Qed.
-Print Assumptions C16_find_collapse_succeeds_before_last_try_partial.
+Print Assumptions C16_find_collapse_succeeds_within_norm_steps.
 
-Theorem C16_last_try_success_raises_refuted :
-  exists (o : opts QN) nrm2 lg stp sg cur tp tf no n tg g s rq,
-    fct_loop QN o nrm2 lg stp (norm_steps QN o) 0 sg [] cur tp tf no n tg
-      = Broke QN g s (norm_steps QN o) rq /\
-    (* the try did find the crossing to within norm_tol *)
-    ltb QN (absv QN (sub QN tg (nrm2 sg g))) (mul QN (norm_tol QN o) tg) = true /\
-    fst (find_collapse QN o nrm2 lg stp sg cur tp tf no n tg) = None /\
-    fst (find_collapse_fixed QN o nrm2 lg stp sg cur tp tf no n tg) = Some (g, s).
-Proof.
-  exists (mkOpts QN 1 (1#1000)%Q (3#4)%Q (1#1000)%Q).
-  exists (fun _ t => (1 - (3#4) * t)%Q), (fun x => (x - 1)%Q), (fun _ _ g => g).
-  exists 0, 1%Q, 0%Q, 1%Q, 1%Q, (1#4)%Q, (1#2)%Q.
-  exists (1#3)%Q, (1#3)%Q, [(1#3)%Q]. vm_compute. repeat split; reflexivity.
-Qed.
-Print Assumptions C16_last_try_success_raises_refuted.
+Theorem C16_find_collapse_raises_only_when_exhausted :
+  forall (N : Num) (o : opts N) nrm2 lg stp sg cur tp tf no n tg,
+    fst (find_collapse N o nrm2 lg stp sg cur tp tf no n tg) = None <->
+    exists rq, fct_loop N o nrm2 lg stp (norm_steps N o) 0 sg [] cur tp tf no n tg
+               = LoopEnd N (norm_steps N o) rq.
+Proof. exact find_collapse_none. Qed.
+Print Assumptions C16_find_collapse_raises_only_when_exhausted.
 
-Theorem C16_last_try_success_always_raises :
-  forall (N : Num) (o : opts N) nrm2 lg stp sg cur tp tf no n tg g s rq,
-    fct_loop N o nrm2 lg stp (norm_steps N o) 0 sg [] cur tp tf no n tg
-      = Broke N g s (norm_steps N o) rq ->
-    fst (find_collapse N o nrm2 lg stp sg cur tp tf no n tg) = None.
-Proof. exact find_collapse_last_try_raises. Qed.
-Print Assumptions C16_last_try_success_always_raises.
-
-Theorem C16_find_collapse_fixed_succeeds_within_norm_steps :
-  forall (N : Num) (o : opts N) nrm2 lg stp sg cur tp tf no n tg g s,
-    fst (find_collapse_fixed N o nrm2 lg stp sg cur tp tf no n tg) = Some (g, s) <->
-    exists tr rq, fct_loop N o nrm2 lg stp (norm_steps N o) 0 sg [] cur tp tf no n tg
-                  = Broke N g s tr rq /\ tr <= norm_steps N o.
-Proof. exact find_collapse_fixed_some. Qed.
-Print Assumptions C16_find_collapse_fixed_succeeds_within_norm_steps.
-
-Theorem C16_find_collapse_fixed_extends_current :
-  forall (N : Num) (o : opts N) nrm2 lg stp sg cur tp tf no n tg r,
-    fst (find_collapse N o nrm2 lg stp sg cur tp tf no n tg) = Some r ->
-    fst (find_collapse_fixed N o nrm2 lg stp sg cur tp tf no n tg) = Some r.
-Proof. exact find_collapse_fixed_extends. Qed.
-Print Assumptions C16_find_collapse_fixed_extends_current.
+(* the input of the former defect (one allowed try, which succeeds) *)
+Example C16_nonvacuous_last_try :
+  fst (find_collapse QN (mkOpts QN 1 (1#1000)%Q (3#4)%Q (1#1000)%Q)
+                     (fun _ t => (1 - (3#4) * t)%Q) (fun x => (x - 1)%Q) (fun _ _ g => g)
+                     0 1%Q 0%Q 1%Q 1%Q (1#4)%Q (1#2)%Q) = Some ((1#3)%Q, (1#3)%Q).
+Proof. vm_compute. reflexivity. Qed.
 
 (* ---------------------------------------------------------------------
-   3b. Full statement (not provable for the current code): with a strictly
-       decreasing squared norm and a bracketed crossing the search finds a
-       collapse time for norm_steps large enough.  Refuted: when the crossing
-       lies within norm_t_tol after t_prev the guess is clamped to
-       t_prev + norm_t_tol, which becomes t_final; the bracket then has width
-       exactly norm_t_tol (the test is `<`), every further guess is clamped to
-       the same time, and the search fails for EVERY norm_steps. *)
-Theorem C16_search_stagnates_refuted :
-  exists (o : nat -> opts QN) (nrm2 : nat -> Q -> Q) (lg : Q -> Q) (stp : nat -> Q -> Q -> Q) (tg : Q),
-    (forall n, norm_steps QN (o n) = n) /\
-    (* the input is a perfectly regular one *)
-    (forall (s : nat) t u, (t < u)%Q -> (nrm2 s u < nrm2 s t)%Q) /\
-    ((nrm2 O 0 == 1)%Q /\ (nrm2 O 1 == 1#2)%Q /\ (1#2 <= tg)%Q /\ (tg < 1)%Q) /\
-    (exists tc, (nrm2 O tc == tg)%Q /\ (tc - 0 < norm_t_tol QN (o O))%Q) /\
-    (forall x y, (1 < x)%Q -> (x <= y)%Q -> (0 < lg x)%Q /\ (lg x <= lg y)%Q) /\
-    (forall sg c g, stp sg c g = g) /\
-    (* and still, whatever norm_steps: *)
-    forall n,
-      fst (find_collapse QN (o n) nrm2 lg stp 0 1%Q 0%Q 1%Q 1%Q (1#2)%Q tg) = None /\
-      (forall r, In r (snd (find_collapse QN (o n) nrm2 lg stp 0 1%Q 0%Q 1%Q 1%Q (1#2)%Q tg))
-                 -> r = (1#10)%Q).
-Proof.
-  exists stag_o, stag_nrm2, stag_lg, stag_stp, stag_tg.
-  destruct stag_input_is_fine as (A & B & C & D & E & F).
-  split; [reflexivity|]. split; [exact A|].
-  split; [unfold stag_nrm2, stag_tg; repeat split; try reflexivity; lra|].
-  split; [exists (3#50)%Q; split; assumption|]. split; [exact F|]. split; [reflexivity|].
-  intros n. exact (stag_never_found n).
-Qed.
-Print Assumptions C16_search_stagnates_refuted.
-
-(* with the width test written as `t_final <= t_prev + norm_t_tol` (the
-   expression the clamp itself uses) the same input is accepted at the second
-   try, with the bracket [0, 1/10] *)
-Theorem C16_search_stagnation_repaired_on_witness :
-  fct_loop_w (stag_o 5) stag_nrm2 stag_lg stag_stp 5 0 0 [] 1%Q 0%Q 1%Q 1%Q (1#2)%Q stag_tg
+   3b. No stagnation.  The input on which the search used to repeat the guess
+       t_prev + norm_t_tol for ever (squared norm 1 - t/2, threshold 97/100,
+       norm_t_tol 1/10) is accepted at the second try; and in general: *)
+Theorem C16_former_stagnation_input_accepted :
+  fct_loop QN (stag_o 5) stag_nrm2 stag_lg stag_stp 5 0 0 [] 1%Q 0%Q 1%Q 1%Q (1#2)%Q stag_tg
   = Broke QN (1#10)%Q (1#10)%Q 2 [(1#10)%Q].
-Proof. exact stag_repaired. Qed.
-Print Assumptions C16_search_stagnation_repaired_on_witness.
+Proof. exact stag_accepted. Qed.
+Print Assumptions C16_former_stagnation_input_accepted.
 
-(* progress of the repaired search for ANY input: with the width test
-   `t_final <= t_prev + norm_t_tol`, for every strictly positive squared-norm
+(* progress of the search for ANY input: for every strictly positive squared-norm
    oracle, every logarithm that is positive and strictly increasing above 1
    and every bracket with norm_old > target > norm > 0, all the times the
    search asks the integrator for are pairwise different and lie strictly
    inside the bracket (each one becomes an end of a strictly smaller bracket):
    a guess is never repeated, whatever norm_steps. *)
-Theorem C16_repaired_search_never_repeats_a_request :
+Theorem C16_search_never_repeats_a_request :
   forall (o : opts QN) nrm2 lg stp,
     (forall sg c g, stp sg c g = g) ->
     (forall x y, 1 < x -> x < y -> 0 < lg x /\ lg x < lg y)%Q ->
@@ -183,7 +124,7 @@ Theorem C16_repaired_search_never_repeats_a_request :
     forall fuel sg t_prev t_final norm_old norm tg,
       (t_prev <= t_final)%Q -> (0 < norm)%Q -> (norm < tg)%Q -> (tg < norm_old)%Q ->
       exists rq,
-        (match fct_loop_w o nrm2 lg stp fuel 0 sg [] t_final t_prev t_final norm_old norm tg with
+        (match fct_loop QN o nrm2 lg stp fuel 0 sg [] t_final t_prev t_final norm_old norm tg with
          | Broke _ _ _ _ r => r | LoopEnd _ _ r => r end) = rq /\
         NoDup rq /\ (forall r, In r rq -> (t_prev < r /\ r < t_final)%Q).
 Proof.
@@ -192,7 +133,7 @@ Proof.
                            Hb Hn Hle Hlt) as (new & E & ND & HI).
   exists new. rewrite app_nil_r in E. split; [exact E|]. split; [exact ND|exact HI].
 Qed.
-Print Assumptions C16_repaired_search_never_repeats_a_request.
+Print Assumptions C16_search_never_repeats_a_request.
 
 (* ---------------------------------------------------------------------
    4. Exact arithmetic: every time the search asks the ODE integrator for
